@@ -1147,7 +1147,7 @@ class Ctx(object):
         if not z3.is_bool(ta) and _dag_size(ta, 600) + _dag_size(tb, 600) < 600:
             try:
                 d = z3.simplify(ta - tb, som=True)
-                if (z3.is_rational_value(d) or z3.is_int_value(d)) and d.as_fraction() == 0:
+                if (z3.is_int_value(d) and d.as_long() == 0) or (z3.is_rational_value(d) and d.numerator_as_long() == 0):
                     self.stats.identity += 1
                     self.checks_on_path += 1
                     return True
